@@ -46,7 +46,7 @@ def q(k, typ="float"):
 
 
 def model_check(ctx):
-    r = ctx.mc("MC_Intervals", "MC_Intervals.cfg", coverage=True)
+    r = ctx.mc("MC_Intervals", "MC_Intervals_t.cfg" if ctx.thorough else "MC_Intervals.cfg", coverage=True)
     # transitions taken per action (the generic coverage field counts *new* states only: every interval is
     # first reached by Construct, so the operation actions show 0 there)
     import re
@@ -62,7 +62,7 @@ def model_check(ctx):
 
 
 def cases(ctx):
-    cs = ctx.gen("MC_Intervals", "GEN_Intervals.cfg")
+    cs = ctx.gen("MC_Intervals", "GEN_Intervals_t.cfg" if ctx.thorough else "GEN_Intervals.cfg")
     band = {}
     for c in cs:
         c["src"] = "tlc"
@@ -231,7 +231,7 @@ def _plain(case, ev):
                                **_iv(lambda: mk() / c, _fine)))
         for n in case["rounds"]:
             fn = (lambda: round(mk())) if n == "None" else (lambda: round(mk(), int(n)))
-            ev.append(dict(base, op="round", n=n, sig="round/n=%s/%s" % (n, typ), **_iv(fn, _fine)))
+            ev.append(dict(base, op="round", digits=n, sig="round/n=%s/%s" % (n, typ), **_iv(fn, _fine)))
         if e > s:                                                  # inverted construction must be rejected
             ev.append(dict(op="construct", s=e, e=s, sig="construct_inverted/%s" % typ,
                            **_iv(lambda: Interval(q(e, typ), q(s, typ)), _fine)))
